@@ -16,19 +16,21 @@ NOT_DECIDED = ("Conservation over whole histories follows from the per-site rule
 CAP_FREE = "len(self._borrowers) < self._total_tokens"
 
 
-def check(ctx):
-    # ================================================================== CapacityLimiter
-    L = {k: ctx.fn(f"CapacityLimiter.{k}", A) for k in
-         ("total_tokens@setter", "_notify_next_waiter", "acquire_on_behalf_of_nowait", "acquire_on_behalf_of",
-          "release_on_behalf_of", "release", "__aexit__", "__aenter__", "acquire", "acquire_nowait", "borrowed_tokens",
-          "available_tokens", "total_tokens", "statistics")}
+def limiter_methods(ctx):
+    return {k: ctx.fn(f"CapacityLimiter.{k}", A) for k in
+            ("total_tokens@setter", "_notify_next_waiter", "acquire_on_behalf_of_nowait", "acquire_on_behalf_of",
+             "release_on_behalf_of", "release", "__aexit__", "__aenter__", "acquire", "acquire_nowait", "borrowed_tokens",
+             "available_tokens", "total_tokens", "statistics")}
 
-    # ---- R10-a every grant is capacity-guarded
+
+def grants_capacity_guarded(ctx, rule, L=None):
+    """every site that makes somebody a borrower is reached only while a token is free (borrowers < total)"""
+    L = L or limiter_methods(ctx)
     grants = []
     for nm, f in L.items():
         for st, env in ctx.sites(f, "self._borrowers.add($X)"):
             grants.append((nm, f, st, env))
-    ctx.floor("R10-a", "grant sites `_borrowers.add` of CapacityLimiter", len(grants), 3)
+    ctx.floor(rule, "grant sites `_borrowers.add` of CapacityLimiter", len(grants), 3)
     for nm, f, st, env in grants:
         x = u(env["X"])
         if nm == "acquire_on_behalf_of_nowait":
@@ -37,16 +39,28 @@ def check(ctx):
         else:
             dnf = [[CAP_FREE]]
             what = "grant to a queued waiter only while a token is free"
-        ctx.require_at("R10-a", f, st, dnf, instance=what, what="grant")
+        ctx.require_at(rule, f, st, dnf, instance=what, what="grant")
         if nm != "acquire_on_behalf_of_nowait":
             # the granted borrower is the one dequeued from the head, and its event is set
             deq = ctx.sites(f, "$B, $E = self._wait_queue.popitem(last=False)", env={"B": env["X"]})
             ok = bool(deq)
             ev = u(deq[0][1]["E"]) if ok else "?"
             sets = ctx.sites(f, f"{ev}.set()") if ok else []
-            ctx.ob("R10-a", f, "woken waiter is the granted borrower", ok and bool(sets),
+            ctx.ob(rule, f, "woken waiter is the granted borrower", ok and bool(sets),
                    detail="" if ok and sets else f"`{norm(st)}`: the borrower granted a token is not the (borrower, event) pair dequeued from the head of _wait_queue with its event set",
                    node=st, by=("popitem(last=False)", "event.set()"))
+
+
+
+def check(ctx):
+    # ================================================================== CapacityLimiter
+    L = {k: ctx.fn(f"CapacityLimiter.{k}", A) for k in
+         ("total_tokens@setter", "_notify_next_waiter", "acquire_on_behalf_of_nowait", "acquire_on_behalf_of",
+          "release_on_behalf_of", "release", "__aexit__", "__aenter__", "acquire", "acquire_nowait", "borrowed_tokens",
+          "available_tokens", "total_tokens", "statistics")}
+
+    # ---- R10-a every grant is capacity-guarded
+    grants_capacity_guarded(ctx, "R10-a", L)
 
     # the double-borrow and WouldBlock guards of the direct path
     f = L["acquire_on_behalf_of_nowait"]
